@@ -16,7 +16,13 @@ import (
 	"golang.org/x/tools/go/ssa/ssautil"
 )
 
-const repoRoot = "/repo"
+// repoRoot is the tree under verification: /repo, or $VERIF_REPO (a scratch copy, e.g. the snapshot of a background run)
+var repoRoot = func() string {
+	if r := os.Getenv("VERIF_REPO"); r != "" {
+		return r
+	}
+	return "/repo"
+}()
 const modPath = "github.com/bokysan/socketace/v2"
 
 type ConstOverride struct {
